@@ -1376,6 +1376,18 @@ func (d fxDrawer) ShallowCopy() *fxDrawer {
 	return &fxDrawer{prng: d.prng, r: d.r, u: ring.NewUniformSampler(d.prng, d.r)}
 }
 
+// VACGUARD control: the level is compared with the expression it was read from
+func checkShareLevel(ct *rlwe.Ciphertext, sk *rlwe.SecretKey) error {
+	level := ct.Level()
+	if sk.LevelQ() < 0 {
+		return fmt.Errorf("empty key")
+	}
+	if ct.Level() != level {
+		return fmt.Errorf("level of the key below the level of the share")
+	}
+	return nil
+}
+
 `
 
 // control runs scan over the fixture and demands a violation whose key contains each of the wanted substrings.
